@@ -96,6 +96,18 @@ func (c *FnCtx) finalize() {
 					rel = true
 				}
 			}
+			if c.using != nil && c.using[ax.Name] {
+				// an axiom over built-in operators only (float facts), requested by name
+				onlyBuiltins := len(names) > 0
+				for n := range names {
+					if c.eng.specs.Funcs[n] != nil {
+						onlyBuiltins = false
+					}
+				}
+				if onlyBuiltins {
+					rel = true
+				}
+			}
 			if len(names) == 0 && c.usesStrLt {
 				// an axiom over built-in operators only (the order on strings)
 				rel = true
@@ -123,7 +135,7 @@ func (c *FnCtx) finalize() {
 				env.heap = c.entry
 				t, err := env.evalBool(ax.E)
 				if err != nil {
-					c.notes = append(c.notes, fmt.Sprintf("axiom %s: %v", ax.Name, err))
+					c.notes = append(c.notes, fmt.Sprintf("axiom %s: %v", ax.Name, err)); fmt.Fprintf(os.Stderr, "NOTE axiom %s: %v\n", ax.Name, err)
 				} else {
 					texts = append(texts, t)
 				}
@@ -164,6 +176,16 @@ func (c *FnCtx) finalize() {
 			sort.Strings(syms)
 			if len(names) == 0 {
 				syms = []string{"str_lt"} // included in the queries in which a string comparison occurs
+			}
+			builtinOnly := len(names) > 0
+			for n := range names {
+				if c.eng.specs.Funcs[n] != nil {
+					builtinOnly = false
+				}
+			}
+			if len(syms) == 0 && builtinOnly && c.using != nil && c.using[ax.Name] {
+				// a float fact requested by name: included where float arithmetic occurs
+				syms = []string{"f64_add", "f64_div", "f64_mul", "f64_sub"}
 			}
 			c.axioms = append(c.axioms, axiomInst{name: ax.Name, syms: syms, text: t})
 			c.usedAxioms = append(c.usedAxioms, ax.Name)
